@@ -5,4 +5,5 @@ PROPERTIES = {
     "C09": ["contracts.c09"],
     "C17": ["contracts.c17"],
     "C12": ["contracts.c12"],
+    "C13": ["contracts.c13"],
 }
